@@ -1,6 +1,11 @@
 package simkube
 
 import (
+	"k8s.io/apimachinery/pkg/runtime/schema"
+	"k8s.io/apimachinery/pkg/api/meta"
+	"strings"
+	"sort"
+	"strconv"
 	"context"
 	"fmt"
 
@@ -153,6 +158,17 @@ func (s *Store) Lagging(name string, pick func(k ObjKey, available int) int) cli
 type lagReader struct {
 	c    *Client
 	pick func(k ObjKey, available int) int
+	// pickList, if set, chooses how many writes to objects of the listed
+	// kind the cache has not seen yet (0 = current).
+	pickList func(gk schema.GroupKind, available int) int
+}
+
+// LaggingLists is Lagging whose List, too, may be served from the past: the
+// cache of a kind is a consistent snapshot that misses the last n writes to
+// objects of that kind (n chosen by pickList; removals are not modelled: a
+// removed object is absent from every snapshot).
+func (s *Store) LaggingLists(name string, pick func(k ObjKey, available int) int, pickList func(gk schema.GroupKind, available int) int) client.Reader {
+	return &lagReader{c: s.Client(name), pick: pick, pickList: pickList}
 }
 
 func (l *lagReader) Get(ctx context.Context, key client.ObjectKey, obj client.Object, opts ...client.GetOption) error {
@@ -188,7 +204,74 @@ func (l *lagReader) Get(ctx context.Context, key client.ObjectKey, obj client.Ob
 }
 
 func (l *lagReader) List(ctx context.Context, list client.ObjectList, opts ...client.ListOption) error {
-	return l.c.List(ctx, list, opts...)
+	if l.pickList == nil {
+		return l.c.List(ctx, list, opts...)
+	}
+	s := l.c.S
+	gvk, err := s.gvkOf(list)
+	if err != nil {
+		return err
+	}
+	gk := schema.GroupKind{Group: gvk.Group, Kind: strings.TrimSuffix(gvk.Kind, "List")}
+	// The resource versions at which objects of the kind were written.
+	s.mu.Lock()
+	var rvs []int
+	versions := map[ObjKey][]*unstructured.Unstructured{}
+	for k, e := range s.objs {
+		if k.GK() != gk {
+			continue
+		}
+		vs := append(append([]*unstructured.Unstructured{}, e.history...), e.obj)
+		versions[k] = vs
+		for _, v := range vs {
+			n, _ := strconv.Atoi(v.GetResourceVersion())
+			rvs = append(rvs, n)
+		}
+	}
+	s.mu.Unlock()
+	sort.Ints(rvs)
+	n := l.pickList(gk, len(rvs))
+	if n <= 0 || len(rvs) == 0 {
+		return l.c.List(ctx, list, opts...)
+	}
+	cutoff := -1
+	if n < len(rvs) {
+		cutoff = rvs[len(rvs)-1-n]
+	}
+	// Serve the current List (selectors and all), then swap each item for
+	// its version as of the cutoff, dropping those that did not exist yet.
+	if err := l.c.List(ctx, list, opts...); err != nil {
+		return err
+	}
+	items, err := meta.ExtractList(list)
+	if err != nil {
+		return err
+	}
+	var out []runtime.Object
+	for _, it := range items {
+		o, ok := it.(client.Object)
+		if !ok {
+			continue
+		}
+		k := ObjKey{Group: gk.Group, Kind: gk.Kind, Namespace: o.GetNamespace(), Name: o.GetName()}
+		var old *unstructured.Unstructured
+		for _, v := range versions[k] {
+			if rv, _ := strconv.Atoi(v.GetResourceVersion()); rv <= cutoff {
+				old = v
+			}
+		}
+		if old == nil {
+			continue
+		}
+		u := deepCopy(old)
+		u.SetGroupVersionKind(schema.GroupVersionKind{Group: gvk.Group, Version: gvk.Version, Kind: gk.Kind})
+		into := it.DeepCopyObject()
+		if err := s.fromU(u, into); err != nil {
+			return err
+		}
+		out = append(out, into)
+	}
+	return meta.SetList(list, out)
 }
 
 // MustU converts any object to unstructured using the store's scheme.
